@@ -31,6 +31,7 @@ func runC09(c *Ctx) {
 	lineVerbatim(c, "C09.line-verbatim", "dnsdata", "(*PreprocReader).Scan")
 	handoverRule(c, "C09.handover", "dnsdata")
 	c09V4Predicate(c, "C09")
+	c09KeyInputReadonly(c)
 	// the normal form is written with Bquote and read back with Bunquote: a value that does not survive unquoting
 	// does not compile to the same bytes (seed c09e)
 	c.importRules(runC17, "C17", map[string]string{"unquote-multibyte": "unquote-multibyte", "escapes": "quote-escapes"})
@@ -1177,4 +1178,94 @@ func c09DefaultsExplicit(c *Ctx) {
 		}
 	}
 	c.Floor(rule, 3)
+}
+
+// writesThroughParam: fn (a module function with a body) stores into an element of the slice it receives as
+// parameter idx (directly; re-slices followed).
+func writesThroughParam(fn *ssa.Function, idx int) bool {
+	if fn == nil || len(fn.Blocks) == 0 || idx >= len(fn.Params) {
+		return false
+	}
+	p := fn.Params[idx]
+	var rootsAtParam func(v ssa.Value, depth int) bool
+	rootsAtParam = func(v ssa.Value, depth int) bool {
+		if depth > 10 {
+			return false
+		}
+		switch x := v.(type) {
+		case *ssa.Parameter:
+			return x == p
+		case *ssa.Slice:
+			return rootsAtParam(x.X, depth+1)
+		case *ssa.Phi:
+			for _, e := range x.Edges {
+				if rootsAtParam(e, depth+1) {
+					return true
+				}
+			}
+		}
+		return false
+	}
+	for _, b := range fn.Blocks {
+		for _, in := range b.Instrs {
+			switch x := in.(type) {
+			case *ssa.Store:
+				if ia, ok := x.Addr.(*ssa.IndexAddr); ok && rootsAtParam(ia.X, 0) {
+					return true
+				}
+			case *ssa.Call:
+				if cp := isBuiltinCall(x, "copy"); cp != nil && rootsAtParam(cp.Call.Args[0], 0) {
+					return true
+				}
+			}
+		}
+	}
+	return false
+}
+
+// c09KeyInputReadonly implements C09.key-input-readonly: building a key from a record never changes the record. The
+// composite records (& . @ S) keep ONE slice for the owner of their address part and the target name of their
+// NS/MX/SRV part; a key builder that folds the case of the name where it stands (round-5 seed c09k) changes what a
+// later MarshalText prints, and the re-serialised line no longer compiles to the same values.
+func c09KeyInputReadonly(c *Ctx) {
+	rule := "C09.key-input-readonly"
+	c.Rule(rule, "A8 in package dnsdata: makedomainkey and makemapkey (and the module functions they hand their name parameter to) store nothing into the elements of the name slice they were given")
+	for _, name := range []string{"makedomainkey", "makemapkey"} {
+		fn := c.Func("dnsdata", name)
+		c.Examined(fn)
+		var bad []string
+		for i, p := range fn.Params {
+			if !isByteSlice(p.Type()) {
+				continue
+			}
+			if writesThroughParam(fn, i) {
+				bad = append(bad, name+" writes "+p.Name())
+			}
+			for _, ci := range callInstrs(fn) {
+				sf := ci.Common().StaticCallee()
+				if sf == nil || sf.Pkg == nil || !c.isOurs(sf.Pkg.Pkg) {
+					continue
+				}
+				for j, a := range ci.Common().Args {
+					aliased := false
+					for v := range sourcesOf(a) {
+						if v == ssa.Value(p) {
+							aliased = true
+						}
+					}
+					if sl, isSl := a.(*ssa.Slice); isSl && sl.X == ssa.Value(p) {
+						aliased = true
+					}
+					if a == ssa.Value(p) {
+						aliased = true
+					}
+					if aliased && writesThroughParam(sf, j) {
+						bad = append(bad, sf.Name()+" writes "+p.Name())
+					}
+				}
+			}
+		}
+		sort.Strings(bad)
+		c.Check(rule, "dnsdata."+name+"|name-not-modified", len(bad) == 0, fn.Pos(), fmt.Sprintf("%v", bad))
+	}
 }
